@@ -530,7 +530,12 @@ def entry_chunks_case(rep, ctl, nsub):
                     p.exited = True
                 eng.loop_invariants = {(q, loop_ix): chunk_loop}
                 eng.count_lists = True
-                p.locs = {'self': me, 'sub_block': sb, 'block': UNK, 'title': UNK}
+                # the enclosing entry: its sub-blocks lie inside it (block.end >= sub_block.end)
+                blk = ObjModel(None, name='block')
+                bend = SV(z3.BitVec('block_end', W), 1, 65536)
+                p.facts.extend([bend.t >= p.end.t, bend.t <= 65536])
+                blk.attrs.update({'end': bend, 'start': UNK, 'blocks': UNK, 'ctl': UNK})
+                p.locs = {'self': me, 'sub_block': sb, 'block': blk, 'title': UNK}
                 eng.run_stmts(fn, stmts, p.locs, me)
 
             def post(p, prove):
@@ -543,7 +548,10 @@ def entry_chunks_case(rep, ctl, nsub):
 
 
 def replay_entry_chunks(vals, kind):
-    """Concrete search: S/B/T/W directives with sublength lists over a small image, sna2skool -> skool2bin."""
+    """Concrete search: S/B/T/W directives with sublength lists over a small image, sna2skool -> skool2bin. Only control
+    files on which the unchanged code round-trips (sublength lists that divide the sub-block, or single sublengths with a
+    short last row): an earlier version used lists that do not divide the sub-block, for which sna2skool writes a
+    statement with a trailing comma - it 'reproduced' every counterexample, including on the unchanged tree."""
     rnd = random.Random(11)
     tmp = tempfile.mkdtemp(prefix='c01chunks_')
     try:
@@ -556,13 +564,22 @@ def replay_entry_chunks(vals, kind):
             mem = [v] * n + [rnd.randrange(256) for _ in range(6)]
             val = rnd.choice(('', ':c%d' % v if 32 <= v < 127 else ':%d' % v, ':h%d' % v, ':%d' % v))
             kind_ = rnd.choice('sbtw')
-            if kind_ == 's':
+            if t % 5 == 4:
+                # a B/T/W sub-block whose rows do not divide it (the last row is short), followed by another sub-block of the same entry
+                k = 4 if kind_ == 'w' else rnd.choice((3, 4))
+                first = k * 2 + (2 if kind_ == 'w' else rnd.randrange(1, k))
+                if first + 2 > len(mem) or kind_ == 's':
+                    continue
+                ctl = '%s %d\n%s %d,%d,%d\n%s %d,%d\ni %d\n' % (kind_, org, kind_.upper(), org, first, k, kind_.upper(), org + first, len(mem) - first, org + len(mem))
+                if kind_ == 'w' and (len(mem) - first) % 2:
+                    continue
+            elif kind_ == 's':
                 ctl = 's %d\nS %d,%d,%d%s\nb %d\ni %d\n' % (org, org, n, size, val, org + n, org + len(mem))
             else:
+                # a two-element sublength list that divides the sub-block exactly (rows of k + k bytes)
                 k = rnd.randrange(1, 4) * (2 if kind_ == 'w' else 1)
+                mem = [rnd.randrange(256) for _ in range(2 * k * rnd.randrange(1, 4))]
                 ctl = '%s %d\n%s %d,%d,%d:%d\ni %d\n' % (kind_, org, kind_.upper(), org, len(mem), k, k, org + len(mem))
-                if kind_ == 'w' and len(mem) % 2:
-                    continue
             diffs = e2e_concrete(tmp, mem, org, ctl, rnd.choice(([], ['-H'], ['-H', '-l'])))
             if diffs:
                 return {'case': {'org': org, 'bytes': mem, 'ctl': ctl}, 'diffs': diffs[:3]}
